@@ -275,3 +275,19 @@ Print Assumptions tie_mask_whitelist.
 Theorem executed_instance_is_F_ops : F17_ops = F_ops.
 Proof. exact F17_ops_is_F_ops. Qed.
 Print Assumptions executed_instance_is_F_ops.
+
+(* ---------- class structure of the current source: overrides and attribute hooks (proofs/ClassesTie.v) ---------- *)
+Require Import ClassesTie.
+Theorem C17_tie_class_torch_repr : over_torch_repr = Some exp_over_torch_repr.
+Proof. exact over_torch_repr_tie. Qed.
+Print Assumptions C17_tie_class_torch_repr.
+Theorem C17_tie_class_tf_repr : over_tf_repr = Some exp_over_tf_repr.
+Proof. exact over_tf_repr_tie. Qed.
+Print Assumptions C17_tie_class_tf_repr.
+Theorem C17_tie_class_subclasses : subclasses = exp_subclasses.
+Proof. exact subclasses_tie. Qed.
+Print Assumptions C17_tie_class_subclasses.
+Theorem C17_tie_class_attr_hooks : Gen_Classes.attr_hooks = exp_attr_hooks.
+Proof. exact attr_hooks_tie. Qed.
+Print Assumptions C17_tie_class_attr_hooks.
+
